@@ -86,6 +86,7 @@ type Sim struct {
 	last      *Task
 	lastSite  string
 	pairs     map[string]int
+	siteCount map[string]int
 	pctChange map[int]bool
 	starve    string
 	start     time.Time
@@ -370,8 +371,19 @@ func trimStack(b []byte) string {
 	return strings.Join(out, " | ")
 }
 
+// SiteCount: how often tasks have parked at the site so far.
+func (s *Sim) SiteCount(site string) int {
+	s.mu.Lock()
+	defer s.mu.Unlock()
+	return s.siteCount[site]
+}
+
 func (s *Sim) park(t *Task, site string, hold int, drain bool) {
 	s.mu.Lock()
+	if s.siteCount == nil {
+		s.siteCount = map[string]int{}
+	}
+	s.siteCount[site]++
 	t.parked = true
 	t.at = site
 	t.hold = hold
